@@ -1113,7 +1113,9 @@ class NestedPipeFunc(PipeFunc):
         self._profile = False
         self._renames: dict[str, str] = renames or {}
         self._defaults: dict[str, Any] = {
-            k: v for k, v in self.pipeline.defaults.items() if k in self.parameters
+            self._renames.get(k, k): v
+            for k, v in self.pipeline.defaults.items()
+            if k in self.original_parameters
         }
         self._bound: dict[str, Any] = {}
         self.resources_variable = None  # not supported in NestedPipeFunc
@@ -1136,7 +1138,13 @@ class NestedPipeFunc(PipeFunc):
             "resources": self.resources,
         }
         kwargs.update(update)
-        return NestedPipeFunc(**kwargs)  # type: ignore[arg-type]
+        new = NestedPipeFunc(**kwargs)  # type: ignore[arg-type]
+        if "pipefuncs" not in update:
+            # Defaults and bound values that were set after construction (`update_defaults`,
+            # `update_bound`) are not stored in the inner pipeline
+            new._defaults = self._defaults.copy()
+            new._bound = self._bound.copy()
+        return new
 
     def _combine_mapspecs(self) -> MapSpec | None:
         mapspecs = [f.mapspec for f in self.pipeline.functions]
